@@ -2,8 +2,12 @@
 //!
 //! * 4 slots, loop-free lookup; a 5th distinct key panics with "VERIF-BOUND" (reported as a bound
 //!   hit, never as a violation).
-//! * single-threaded semantics: no shard locks (so iterator-vs-writer deadlocks are out of scope),
-//!   every operation is one atomic step.
+//! * single-threaded semantics, every operation is one atomic step. Shard locks are modelled only as a
+//!   count of outstanding guards (`Ref` from `get`, `RefMut` from `entry().or_insert_with()`): taking a
+//!   shard lock for WRITING (insert / remove / remove_if / entry) while the same thread still holds a
+//!   guard of this map, or any lock while it holds a write guard, is a self-deadlock on the real
+//!   DashMap and fails a "C09:" assertion here. Guards held by iterators are not counted (the
+//!   property excludes threads that write while holding an iterator).
 //! * counts map reads / writes / removals (`verif_stats`) for the atomic-step lemmas.
 //! * iteration visits every occupied slot exactly once in slot order (real DashMap: arbitrary order).
 //! Assumes `K: Eq` is an equivalence and `Hash` is consistent with it (the model never hashes).
@@ -13,6 +17,28 @@ use std::cell::{Cell, UnsafeCell};
 use std::hash::{BuildHasher, Hash};
 
 pub const SLOTS: usize = 4;
+
+// ---- outstanding guards (all maps together: mini-moka has one map per cache, one cache per harness)
+static mut GUARDS_R: u32 = 0;
+static mut GUARDS_W: u32 = 0;
+/// (read guards, write guards) currently alive
+pub fn verif_guards() -> (u32, u32) { unsafe { (GUARDS_R, GUARDS_W) } }
+pub struct Guard(bool);
+impl Guard {
+    fn read() -> Guard { unsafe { GUARDS_R += 1; } Guard(false) }
+    fn write() -> Guard { unsafe { GUARDS_W += 1; } Guard(true) }
+}
+impl Drop for Guard {
+    fn drop(&mut self) { unsafe { if self.0 { GUARDS_W -= 1; } else { GUARDS_R -= 1; } } }
+}
+#[inline]
+fn lock_for_read() {
+    assert!(unsafe { GUARDS_W } == 0, "C09: map read while the calling thread holds a write guard of the map (self-deadlock on the DashMap shard lock)");
+}
+#[inline]
+fn lock_for_write() {
+    assert!(unsafe { GUARDS_W == 0 && GUARDS_R == 0 }, "C09: map write while the calling thread still holds a guard of the map (self-deadlock on the DashMap shard lock)");
+}
 
 pub struct DashMap<K, V, S = std::collections::hash_map::RandomState> {
     slots: UnsafeCell<[Option<(K, V)>; SLOTS]>,
@@ -60,14 +86,16 @@ impl<K: Eq + Hash, V, S: BuildHasher + Clone> DashMap<K, V, S> {
     where
         K: Borrow<Q>,
     {
+        lock_for_read();
         self.reads.set(self.reads.get() + 1);
         match self.find(key) {
-            Some(i) => self.s()[i].as_ref().map(|(k, v)| mapref::one::Ref { k, v }),
+            Some(i) => self.s()[i].as_ref().map(|(k, v)| mapref::one::Ref { k, v, _g: Guard::read() }),
             None => None,
         }
     }
 
     pub fn insert(&self, key: K, value: V) -> Option<V> {
+        lock_for_write();
         self.writes.set(self.writes.get() + 1);
         if let Some(i) = self.find(&key) {
             let slot = self.s()[i].as_mut().unwrap();
@@ -85,6 +113,7 @@ impl<K: Eq + Hash, V, S: BuildHasher + Clone> DashMap<K, V, S> {
     }
 
     pub fn entry(&self, key: K) -> mapref::entry::Entry<'_, K, V, S> {
+        lock_for_write();
         let slot = self.find(&key);
         mapref::entry::Entry { map: self, key, slot }
     }
@@ -93,6 +122,7 @@ impl<K: Eq + Hash, V, S: BuildHasher + Clone> DashMap<K, V, S> {
     where
         K: Borrow<Q>,
     {
+        lock_for_write();
         self.removes.set(self.removes.get() + 1);
         match self.find(key) {
             Some(i) => self.s()[i].take(),
@@ -104,6 +134,7 @@ impl<K: Eq + Hash, V, S: BuildHasher + Clone> DashMap<K, V, S> {
     where
         K: Borrow<Q>,
     {
+        lock_for_write();
         self.removes.set(self.removes.get() + 1);
         match self.find(key) {
             Some(i) => {
@@ -143,6 +174,7 @@ pub mod mapref {
         pub struct Ref<'a, K, V> {
             pub(crate) k: &'a K,
             pub(crate) v: &'a V,
+            pub(crate) _g: crate::Guard,
         }
         impl<'a, K, V> Ref<'a, K, V> {
             pub fn key(&self) -> &K { self.k }
@@ -156,6 +188,7 @@ pub mod mapref {
         pub struct RefMut<'a, K, V> {
             pub(crate) k: &'a K,
             pub(crate) v: &'a mut V,
+            pub(crate) _g: crate::Guard,
         }
         impl<'a, K, V> RefMut<'a, K, V> {
             pub fn key(&self) -> &K { self.k }
@@ -216,7 +249,7 @@ pub mod mapref {
                     }
                 };
                 let slot = self.map.s()[i].as_mut().unwrap();
-                super::one::RefMut { k: &slot.0, v: &mut slot.1 }
+                super::one::RefMut { k: &slot.0, v: &mut slot.1, _g: crate::Guard::write() }
             }
         }
     }
